@@ -130,7 +130,19 @@ func main() {
 		if ty == "str" {
 			kind = "text"
 		}
+		tuples := tuples
 		nt := 1 + rng.Intn(len(tuples))
+		big := i%50 == 7
+		if big {
+			// many label sets, most of them removed by this one GC pass (limit far
+			// below the population, or most of them expired): the removal loops and
+			// whatever RemoveDatum does to the slice as it shrinks are run many times
+			nt = 34 + rng.Intn(40)
+			tuples = nil
+			for j := 0; j < nt; j++ {
+				tuples = append(tuples, []string{fmt.Sprintf("t%d", j)})
+			}
+		}
 		var ops []mrun.Op
 		equalTimes := rng.Chance(25)
 		baseAge := vlib.Pick(rng, ages)
@@ -178,6 +190,9 @@ func main() {
 		limit := 0
 		if rng.Chance(65) {
 			limit = 1 + rng.Intn(nt+1)
+			if big {
+				limit = 1 + rng.Intn(12)
+			}
 		}
 		r := mrun.NewRunner(1, ty, mrun.Kinds[kind])
 		r.M.Limit = limit
@@ -215,7 +230,11 @@ func main() {
 		}
 		out.Add(vlib.App("CGc", vlib.N(id), vlib.Nat(1), mrun.CoqType(ty), vlib.Nat(limit), vlib.List(opsC), vlib.Z(now), vlib.List(afterC)),
 			c, len(after) < len(before) && len(after) > 0)
-		out.Count(fmt.Sprintf("limit=%v/removed=%d", limit > 0, len(before)-len(after)))
+		if big {
+			out.Count(fmt.Sprintf("big/limit=%v/removed>=20=%v", limit > 0, len(before)-len(after) >= 20))
+		} else {
+			out.Count(fmt.Sprintf("limit=%v/removed=%d", limit > 0, len(before)-len(after)))
+		}
 		if cl, what := judge(c); cl != "" {
 			out.Violate(cl, what, map[string]any{"kind": "gc", "case": c})
 		}
@@ -226,5 +245,5 @@ func main() {
 			out.Violate("listing-inconsistent", pr, map[string]any{"kind": "gc", "case": c})
 		}
 	}
-	out.Flush("random stores: 1..8 label sets with ages {0,5s,60s,1h,-1h,24h}+jitter or all equal, saturating timestamps, expiry marks {0,<0,30s,10m,2h,1ns, threshold +-2s/20s} kept >= 2 s away from the wall-clock threshold, occasional removes, limit 0..n+1; then Store.Gc(); non-trivial = GC removed some but not all entries; distinct by hash of the case", false)
+	out.Flush("random stores: 1..8 label sets (every 50th case 34..73 label sets with a limit of 1..12) with ages {0,5s,60s,1h,-1h,24h}+jitter or all equal, saturating timestamps, expiry marks {0,<0,30s,10m,2h,1ns, threshold +-2s/20s} kept >= 2 s away from the wall-clock threshold, occasional removes, limit 0..n+1; then Store.Gc(); non-trivial = GC removed some but not all entries; distinct by hash of the case", false)
 }
